@@ -209,7 +209,7 @@ func (w *world) gettersIdx(pos position, s, key string, sts []setting) (wrongInd
 			w.res.Ev("classifications", 1)
 			if obs == want {
 				w.res.Ev("name_with_idx_roles_confirmed", 1)
-				w.res.SetAdd("confirmed", "name+idx:"+op+"/"+pos.name)
+				w.res.SetAdd("confirmed", "name+idx:"+strings.SplitN(op, "(", 2)[0]+"/"+pos.name)
 				return
 			}
 			d := deviation{obs: obs, detail: detail, hint: asIdxSeen && obs == "missing"}
